@@ -4564,3 +4564,7 @@ mod tests {
         assert!(!stale_dirty.has_dirty_nodes());
     }
 }
+
+#[cfg(kani)]
+#[path = "/verif/harness/anda_db_hnsw/hnsw.rs"]
+mod verif_kani;
